@@ -848,6 +848,7 @@ pub fn patterns(full: bool) -> Vec<PathP> {
         PathP { start: npl("a", "A"), steps: vec![(rp(Some("r"), &[], Dir::Out), npl("b", "B"))] },
         PathP { start: np("a"), steps: vec![(RelP { var: None, types: vec![], dir: Dir::Out, varlen: Some((1, 2)) }, np("b"))] },
         PathP { start: np("a"), steps: vec![(RelP { var: None, types: vec![], dir: Dir::Both, varlen: Some((0, 1)) }, np("b"))] },
+        PathP { start: np("a"), steps: vec![(rp(Some("r"), &[], Dir::Out), NodeP { var: "b", label: None, prop: Some(CV::Int(1)) })] },
     ];
     if full {
         v.push(PathP { start: np("a"), steps: vec![(rp(Some("r"), &[], Dir::Out), np("b")), (rp(Some("s"), &[], Dir::Out), np("c"))] });
@@ -883,12 +884,16 @@ pub fn predicates(has_b: bool) -> Vec<Option<Ex>> {
         Some(Ex::Not(Box::new(Ex::And(Box::new(Ex::HasLabel("a", "A")), Box::new(Ex::Cmp("=", p("a"), lit(1))))))),
         Some(Ex::Not(Box::new(Ex::Or(Box::new(Ex::Cmp("=", p("a"), lit(1))), Box::new(Ex::HasLabel("a", "A")))))),
         Some(Ex::Not(Box::new(Ex::Or(Box::new(Ex::HasLabel("a", "B")), Box::new(Ex::Cmp("<", p("a"), lit(2))))))),
+        // equality on ANOTHER key than the one an inline property map uses (predicate push-down next to {v: 1})
+        Some(Ex::Cmp("=", Box::new(Ex::Prop("a", "uid")), lit(1))),
+        Some(Ex::And(Box::new(Ex::Cmp("=", Box::new(Ex::Prop("a", "uid")), lit(2))), Box::new(Ex::IsNull(p("a"), true)))),
     ];
     if has_b {
         v.push(Some(Ex::Cmp("<", p("a"), p("b"))));
         v.push(Some(Ex::Cmp("=", p("a"), p("b"))));
         v.push(Some(Ex::And(Box::new(Ex::Cmp("=", p("a"), lit(1))), Box::new(Ex::Cmp("=", p("b"), lit(2))))));
         v.push(Some(Ex::And(Box::new(Ex::HasLabel("a", "A")), Box::new(Ex::Not(Box::new(Ex::HasLabel("b", "A")))))));
+        v.push(Some(Ex::Cmp("=", Box::new(Ex::Prop("b", "uid")), lit(2))));
     }
     v
 }
